@@ -70,6 +70,7 @@ extern __thread ThreadCtx* T;
 bool is_sec_build(); bool is_dbg_build(); bool is_padded_build();
 void block_fill(Block* b);
 void block_verify(Block* b, const char* when);
+void usable_verify(Block* b, const char* when);
 void model_insert(Block* b, const char* what);
 void model_remove(Block* b);
 int  heap_for_alloc(const Op& op);       // model heap index used by an allocating op
